@@ -26,7 +26,7 @@ func init() {
 	register(&Prop{
 		ID:    "C13",
 		Level: "exploration",
-		Rule:  "case 0: all malformed / zero-valued / partially initialised recipe shapes of both kinds; other cases: VERIF_SEED-generated character recipes concentrated around the refusal threshold (disjoint, overlapping, nested and single-character required sets, class flags, lengths 1-40) under the default and modified MaxTrials/MaxFailRate, each judged against the exact rational success probability: refusal direction on a script whose first candidate is valid, acceptance direction on that script and on real OS randomness, SuccessProbability() against the exact fraction, attempt budget on a script on which every candidate fails, and recovery after k<MaxTrials failures. evaluations = Generate/SuccessProbability calls; distinct_nontrivial = distinct (recipe, knobs) with at least one live required set",
+		Rule:  "case 0: all malformed / zero-valued / partially initialised recipe shapes of both kinds, and wordlist recipes whose capitalisation scheme is none of the defined constants (password or error, never a panic); other cases: VERIF_SEED-generated character recipes concentrated around the refusal threshold (disjoint, overlapping, nested and single-character required sets, class flags, lengths 1-40) under the default and modified MaxTrials/MaxFailRate, each judged against the exact rational success probability: refusal direction on a script whose first candidate is valid, acceptance direction on that script and on real OS randomness, SuccessProbability() against the exact fraction, attempt budget on a script on which every candidate fails, and recovery after k<MaxTrials failures. evaluations = Generate/SuccessProbability calls; distinct_nontrivial = distinct (recipe, knobs) with at least one live required set",
 		Assumptions: []string{
 			"threshold p* = 1 - MaxFailRate^(1/MaxTrials); recipes with p within 1% of p* are not judged for refusal (float32 arithmetic legitimately decides either way)",
 			"recipes in which exclusion empties one required set while another survives are not judged in the must-not-refuse direction",
